@@ -286,7 +286,7 @@ func (r *c03runner) authz(form string, p *ast.Policy, s int, targets uint16, wan
 func C03(c *mon.Ctx) {
 	c.Rule = "case = (parent digraph, subset of nodes present in the store, start entity, target entity or target set, query form). " +
 		"Oracle: breadth-first reachability over parent links of present entities (bitmask model), plus a logical budget of 64(n+1)^2 EntityGetter.Get calls per query as the non-termination witness. " +
-		"Enumerated completely: all digraphs on <=4 nodes x all presence subsets x all ordered pairs for `a in b`; set-valued targets, `is T in` and all scope forms on all digraphs with <=3 nodes (quick) / 4 nodes (thorough). Random 5-8 node graphs on top. On the <=3-node graphs also: the operator forms inside a when-clause decided through cedar.Authorize (compiled and constant-folded path), and every set-valued query repeated directly after a membership test that failed with a type error (no state may leak from a failed evaluation). " +
+		"Enumerated completely: all digraphs on <=4 nodes x all presence subsets x all ordered pairs for `a in b`; set-valued targets, `is T in` and all scope forms on all digraphs with <=3 nodes (quick) / 4 nodes (thorough). Random 5-8 node graphs on top. On the <=3-node graphs also: the operator forms inside a when-clause decided through cedar.Authorize (compiled and constant-folded path), and every set-valued query repeated directly after a membership test that failed with a type error (no state may leak from a failed evaluation). Stream several-start-entities: on all 3-node digraphs (and 6 times per random graph) principal, action and resource are three different nodes and one policy asks `in` of each of them in scope and condition (crosswise), against the conjunction of the reachability answers. " +
 		"distinct_nontrivial = distinct (graph, presence) combinations with at least one edge."
 	c.Assume = []string{"the EntityGetter returns entities exactly as stored (harness getter counts calls)", "absent parents are reachable targets but are not expanded"}
 	c.Floor = 1000
@@ -330,6 +330,7 @@ func C03(c *mon.Ctx) {
 		})
 	}
 	c03sameObject(c)
+	c03multi(c)
 	// random larger graphs: chains, cycles, diamonds, absent nodes
 	c.ParFor("random", c.N(20000, 300000), func(w *mon.W, i int) {
 		rd := w.Rand()
@@ -367,6 +368,7 @@ func C03(c *mon.Ctx) {
 				r.report("a in set-value", s, sub, got, bad, want)
 			}
 		}
+		r.randomMulti(rd, 6)
 		w.NonTrivial(fmt.Sprintf("r/%d/%v/%d", n, g.adj, g.present))
 		if i%5000 == 0 {
 			w.Sample("random-graph", g.describe())
